@@ -67,6 +67,15 @@ class World:
                 t3 = cuqi.distribution.Gaussian(mean=lambda ta, tb, tc: (ta + 10 * tb + 100 * tc) * np.array([1.0, -0.5]),
                                                 cov=lambda td: abs(td) + 0.5, geometry=2, name="w3")
             self.add(t3, None, "density:w3")
+        if spec.get("fsp"):
+            # a Gaussian defined through a full (non-triangular) square root of its precision held in a Fortran-ordered array -
+            # the layout LAPACK works on in place - with a conditional mean, so that copies are made and sampled
+            self.values.update({"tm": np.array([0.2, -0.1, 0.4]), "g3": np.array([0.3, 0.1, -0.2])})
+            U = np.array([[1.0, 0.3, -0.2], [0.3, 1.5, 0.4], [-0.2, 0.4, 2.0]])
+            w_, V_ = np.linalg.eigh(U)
+            R = np.asfortranarray((V_ * np.sqrt(w_)).T)
+            g3 = cuqi.distribution.Gaussian(mean=lambda tm: tm, sqrtprec=R, geometry=3, name="g3")
+            self.add(g3, None, "density:g3")
         refused, J = refuses(lambda: cuqi.distribution.JointDistribution(*dens))
         if not refused:
             self.add(J, None, "joint")
@@ -358,9 +367,10 @@ def make_machine(rec, tier):
                 type(self).failure = (jsonable(self.w.trace), v, {"steps": self.nsteps})
                 raise
 
-        @initialize(spec=graphs.graph_spec(max_dim=3, max_data=2), reg=st.booleans(), tri=st.sampled_from([None, "normal", "gaussian"]))
-        def init(self, spec, reg, tri):
-            spec = dict(spec, reg_latent=bool(reg), tri=tri)
+        @initialize(spec=graphs.graph_spec(max_dim=3, max_data=2), reg=st.booleans(), tri=st.sampled_from([None, "normal", "gaussian"]),
+                    fsp=st.booleans())
+        def init(self, spec, reg, tri, fsp):
+            spec = dict(spec, reg_latent=bool(reg), tri=tri, fsp=bool(fsp))
             self.guarded(lambda: self.w.init_graph(spec))
 
         @rule(i=st.integers(0, 40), mask=st.integers(1, 31), positional=st.booleans(), variant=st.sampled_from([1.0, 0.8, 0.6, 1.000001]))
@@ -494,8 +504,10 @@ def run_names(c, rec):
         out = must(lambda: last(**{want: v}), "conditioning a conditioned copy on its own random variable")
         require(isinstance(out, (cuqi.likelihood.Likelihood, cuqi.density.EvaluatedDensity)),
                 "conditioning on the random variable itself does not give a likelihood / evaluated density", got=type(out).__name__)
-        if isinstance(out, cuqi.likelihood.Likelihood):
-            require(out.name == want, "the likelihood of a conditioned copy does not carry the random-variable name", got=out.name, want=want)
+        fixed_value = out      # (bound to another Python variable name on purpose)
+        got_name = must(lambda: fixed_value.name, "reading the name of the likelihood / evaluated density")
+        require(got_name == want, f"the {type(out).__name__} obtained by conditioning on the random variable itself does not carry the "
+                "random-variable name of its original", got=got_name, want=want)
 
 
 # ----------------------------------------------------------------------------- looking at an original does not change what it gives later
